@@ -12,6 +12,7 @@ INVARIANT UPGradHomogeneous
 INVARIANT F2Sound
 INVARIANT LimitWellDefined
 INVARIANT BracketSound
+INVARIANT PresentationsSound
 INVARIANT MinNormOK
 INVARIANT FWSimplex
 INVARIANT FWMonotone
